@@ -475,6 +475,34 @@ theorem stacking_same_cmp (g lo hi w w' : List ℚ) (hlen : lo.length = hi.lengt
 example : SameCmp (1/2) [((1 : ℚ), (1/4 : ℚ), (3/10 : ℚ)), (2, 3/4, 7/10)] 0 0 := by
   simp only [SameCmp]; norm_num
 
+/-- ★ the masses as given (exact rationals of the binary64 masses, which sum to one only up to an ulp): for ANY
+positive mass vector whose running sums along the value-sorted endpoints stay below one before the last, the
+model's bound at a level `0 < x ≤ 1` reached by the total mass is the generalised inverse of the cumulated mass of
+those very masses — no normalisation is involved.  This is the exact-rational belief / plausibility reference the
+harness evaluates (a cumulated mass that EQUALS a grid level selects that focal element, `grid_hit`). -/
+theorem model_geninv_pos (s w : List ℚ) (hpos : ∀ x ∈ w, 0 < x)
+    (hnl : NonLastBelow (sortByFst (s.zip w)) 0) (x : ℚ) (h0 : 0 < x) (h1 : x ≤ 1)
+    (hreach : x ≤ ((sortByFst (s.zip w)).map (·.2)).sum) (hne : s.zip w ≠ []) :
+    ∃ e v, getEcdf s w = some e ∧ interpNext (extendEcdf e) x = some v ∧ IsGenInv (massLE (s.zip w)) x v := by
+  have hLne : sortByFst (s.zip w) ≠ [] := by
+    intro h
+    have := (sortByFst_perm (s.zip w)).length_eq
+    rw [h] at this
+    exact hne (List.eq_nil_of_length_eq_zero this.symm)
+  have hnn : ∀ p ∈ sortByFst (s.zip w), 0 ≤ p.2 := by
+    intro p hp
+    have hp' : p ∈ s.zip w := (sortByFst_perm _).mem_iff.mp hp
+    obtain ⟨a, b⟩ := p
+    exact le_of_lt (hpos b (List.of_mem_zip hp').2)
+  obtain ⟨v, hv⟩ := nextQ_total (sortByFst (s.zip w)) 0 x (by linarith) hLne
+  obtain ⟨e, he, hq⟩ := model_eq_nextQ_pos s w hpos hnl x v h0 h1 hv
+  refine ⟨e, v, he, hq, ?_⟩
+  obtain ⟨g1, g2⟩ := nextQ_is_geninv _ (sortByFst_sorted _) hnn 0 x v h0 hv
+  have hp : ∀ t, massLE (sortByFst (s.zip w)) t = massLE (s.zip w) t := fun t => massLE_perm (sortByFst_perm _) t
+  constructor
+  · rw [← hp]; linarith
+  · intro t ht; rw [← hp]; have := g2 t ht; linarith
+
 /-! ## round trip `to_dss().to_pbox()` -/
 
 /-- a well-formed p-box with `n` steps -/
